@@ -59,6 +59,7 @@
 #include "Fractures/FracFamily.hpp"
 #include "Fractures/FracFault.hpp"
 #include <functional>
+#include <filesystem>
 #include <map>
 #include <algorithm>
 #include <cctype>
@@ -364,10 +365,59 @@ inline Value runHistCase(const Value& cs, const std::string& tmp)
   return rec;
 }
 
+// file-name session: under one container / prefix setting, a distinct Table (one cell = rank of the name) is written with
+// dumpToNF(name) under every name of the list, then every name is read back with createFromNF(name): got[i] = the cell of
+// the object returned for name i (0: nothing returned)
+inline Value runPathSession(const Value& cs, const std::string& tmp)
+{
+  const Value& o = cs.at("o");
+  Value rec = Value::object();
+  rec["id"] = cs.at("id");
+  rec["c"] = Value("PathSession");
+  std::string dir = tmp + "/ps" + std::to_string(cs.at("id").i());
+  std::string cont = dir + "/cont/";
+  std::filesystem::remove_all(dir);
+  std::filesystem::create_directories(cont);
+  ASerializable::unsetContainerName();
+  ASerializable::unsetPrefixName();
+  if (o.at("container").boolean()) ASerializable::setContainerName(false, cont, false);
+  if (o.at("prefix").boolean()) ASerializable::setPrefixName(o.at("prefix_string").s());
+  char cwd[4096];
+  if (!getcwd(cwd, sizeof cwd)) cwd[0] = 0;
+  if (chdir(dir.c_str()) != 0) return rec;
+  Value dumped = Value::array(), got = Value::array();
+  int k = 0;
+  for (auto& nm : o.at("names").arr)
+  {
+    Table* t = Table::create(1, 1);
+    t->setValue(0, 0, (double)(++k));
+    dumped.push(Value(t->dumpToNF(nm.s(), false)));
+    delete t;
+  }
+  for (auto& nm : o.at("names").arr)
+  {
+    Table* r = Table::createFromNF(nm.s(), false);
+    got.push(I(r != nullptr && r->getNRows() == 1 && r->getNCols() == 1 ? (int)r->getValue(0, 0) : 0));
+    delete r;
+  }
+  rec["dumped"] = dumped;
+  rec["got"] = got;
+  Value files = Value::array();
+  for (auto& e : std::filesystem::recursive_directory_iterator(dir))
+    if (e.is_regular_file()) files.push(Value(e.path().string().substr(dir.size() + 1)));
+  rec["files"] = files;
+  ASerializable::unsetContainerName();
+  ASerializable::unsetPrefixName();
+  if (chdir(cwd) != 0) {}
+  std::filesystem::remove_all(dir);
+  return rec;
+}
+
 inline Value runCase(const Value& cs, const std::string& tmp)
 {
   const std::string& cls = cs.at("c").s();
   if (cls == "Path") return runPathCase(cs, tmp);
+  if (cls == "PathSession") return runPathSession(cs, tmp);
   if (cls == "Hist") return runHistCase(cs, tmp);
   auto it = registry().find(cls);
   if (it == registry().end()) throw std::runtime_error("no handler for class " + cls);
